@@ -195,7 +195,7 @@ def check_one(desc, acc):
 def check_temporal(desc, acc, base, size):
     import hypergraphx.linalg as L
 
-    for detour in (False, True, 2):
+    for detour in (False, True, 2, "shrink"):
         h = C.build(desc, detour=detour)
         w = dict(base, detour=detour)
         acc.evaluations += 1
